@@ -61,6 +61,7 @@ type Tracker struct {
 	FailAt                map[int]bool
 	calls                 int
 	failRel               map[int]func()
+	failRelWiped          map[int]bool   // the planned creation failure consumes (wipes) its input first
 	reads                 int            // WithBytes / WithBytesFunc calls so far
 	failOpen, failRelease map[int]func() // by absolute read index
 	fps                   map[string]bool
@@ -103,17 +104,31 @@ func (t *Tracker) create(origin string, content []byte, inner securememory.Secre
 	return s
 }
 
-func (t *Tracker) failNow() bool {
+func (t *Tracker) failNow() (fail, wiped bool) {
 	t.mu.Lock()
 	k := t.calls
 	t.calls++
 	fire := t.failRel[k]
-	fail := t.FailAt[k] || fire != nil
+	fail = t.FailAt[k] || fire != nil
+	wiped = t.failRelWiped[k]
 	t.mu.Unlock()
 	if fire != nil {
 		fire()
 	}
-	return fail
+	return fail, wiped
+}
+
+// FailRelWiped is FailRel for a failure that strikes AFTER the factory copied and wiped its input
+// (the real factories fail like this when protecting the new pages fails): New returns an error
+// and the caller's buffer is already zero.
+func (t *Tracker) FailRelWiped(rel int, onFire func()) {
+	t.FailRel(rel, onFire)
+	t.mu.Lock()
+	defer t.mu.Unlock()
+	if t.failRelWiped == nil {
+		t.failRelWiped = map[int]bool{}
+	}
+	t.failRelWiped[t.calls+rel] = true
 }
 
 // FailRel makes the rel-th creation call from now on (0 = the next one) fail;
@@ -130,7 +145,7 @@ func (t *Tracker) FailRel(rel int, onFire func()) {
 // ClearFail removes all planned relative failures.
 func (t *Tracker) ClearFail() {
 	t.mu.Lock()
-	t.failRel, t.failOpen, t.failRelease = nil, nil, nil
+	t.failRel, t.failOpen, t.failRelease, t.failRelWiped = nil, nil, nil, nil
 	t.mu.Unlock()
 }
 
@@ -177,8 +192,14 @@ func (t *Tracker) New(b []byte) (securememory.Secret, error) {
 	t.mu.Lock()
 	t.SourceBufs = append(t.SourceBufs, &Retained{Buf: b, Origin: "SecretFactory.New(source)", KeyFp: Fp(b)})
 	t.mu.Unlock()
-	if t.failNow() {
-		// like the real factories on an allocation failure, the source is left as is
+	if fail, wiped := t.failNow(); fail {
+		// like the real factories: an allocation failure leaves the source as is, a failure to protect
+		// the new pages strikes after the source was copied and wiped
+		if wiped {
+			for i := range b {
+				b[i] = 0
+			}
+		}
 		return nil, ErrAlloc
 	}
 	if t.Inner != nil {
@@ -201,7 +222,7 @@ func (t *Tracker) New(b []byte) (securememory.Secret, error) {
 
 // CreateRandom implements SecretFactory.
 func (t *Tracker) CreateRandom(size int) (securememory.Secret, error) {
-	if t.failNow() {
+	if fail, _ := t.failNow(); fail {
 		return nil, ErrAlloc
 	}
 	if t.Inner != nil {
